@@ -95,6 +95,20 @@ fn u2f_serialize<const S: usize>(r: &ctap_types::ctap1::Response, prior: &[u8]) 
     }
 }
 
+fn req_outcome(bytes: &[u8]) -> String {
+    let res = ctap_types::ctap2::Request::deserialize(bytes);
+    match &res {
+        Ok(r) => {
+            let (variant, payload) = glue::dump_request(r);
+            match payload {
+                Some(v) => format!("ok {} {}", variant, v.show()),
+                None => format!("ok {} -", variant),
+            }
+        }
+        Err(e) => format!("err {}", *e as u8),
+    }
+}
+
 fn handle(line: &str, big: &mut [u8]) -> String {
     let toks: Vec<&str> = line.trim().split(' ').collect();
     match toks.as_slice() {
@@ -141,18 +155,48 @@ fn handle(line: &str, big: &mut [u8]) -> String {
         }
         ["req", _cfg, hx] => {
             let Some(bytes) = unhex(hx) else { return "bad-case".into() };
-            let res = ctap_types::ctap2::Request::deserialize(&bytes);
-            let out = match &res {
-                Ok(r) => {
-                    let (variant, payload) = glue::dump_request(r);
-                    match payload {
-                        Some(v) => format!("ok {} {}", variant, v.show()),
-                        None => format!("ok {} -", variant),
-                    }
-                }
-                Err(e) => format!("err {}", *e as u8),
-            };
+            let out = req_outcome(&bytes);
+            // the same bytes at another address, between different neighbours: same result
+            let mut other = vec![0xa5u8; bytes.len() + 9];
+            other[5..5 + bytes.len()].copy_from_slice(&bytes);
+            let again = req_outcome(&other[5..5 + bytes.len()]);
+            if again != out {
+                return format!("nondeterministic {} / {}", out.replace(' ', "_"), again.replace(' ', "_"));
+            }
             out
+        }
+        ["sweep", _cfg, prefix, n] => {
+            // every byte string `prefix ‖ s`, |s| = n: outcome classes and an order-independent digest
+            let (Some(prefix), Ok(n)) = (unhex(prefix), n.parse::<u32>()) else { return "bad-case".into() };
+            if n > 3 { return "bad-case".into(); }
+            let total: u64 = 1u64 << (8 * n);
+            let (mut ok, mut e1, mut e18, mut e20, mut eo, mut pn) = (0u64, 0u64, 0u64, 0u64, 0u64, 0u64);
+            let mut digest: u64 = 0;
+            let mut first_panic = String::new();
+            let mut buf = prefix.clone();
+            buf.resize(prefix.len() + n as usize, 0);
+            for i in 0..total {
+                for k in 0..n as usize {
+                    buf[prefix.len() + k] = (i >> (8 * (n as usize - 1 - k))) as u8;
+                }
+                let b = buf.clone();
+                let out = std::panic::catch_unwind(move || req_outcome(&b)).unwrap_or_else(|_| "panic".to_string());
+                if out.starts_with("ok") { ok += 1 }
+                else if out == "err 1" { e1 += 1 }
+                else if out == "err 18" { e18 += 1 }
+                else if out == "err 20" { e20 += 1 }
+                else if out == "panic" { pn += 1; if first_panic.is_empty() { first_panic = hex(&buf); } }
+                else { eo += 1 }
+                let mut h: u64 = 0xcbf29ce484222325;
+                for &x in buf.iter().chain(out.as_bytes().iter()) {
+                    h ^= x as u64;
+                    h = h.wrapping_mul(0x100000001b3);
+                }
+                digest = digest.wrapping_add(h);
+            }
+            format!("sweep n={} ok={} err1={} err18={} err20={} errother={} panic={}{} digest={:016x}",
+                total, ok, e1, e18, e20, eo, pn,
+                if first_panic.is_empty() { String::new() } else { format!(" first={}", first_panic) }, digest)
         }
         ["resp", _cfg, variant, val, cap, prior] => {
             let v = if *val == "-" { None } else { V::parse(val) };
